@@ -246,6 +246,9 @@ def gen_update(r, var, cur_keys):
             new = [k for k in 'efgh' if k not in keys][:r.randint(1, 2)]
             ops['_add'] = [{'key': k, 'state': {'n': r.randint(0, 9)}} for k in new]
             keys += new
+            if new and r.random() < 0.3:
+                # the same update goes on to change a field of the entry it has just added
+                ops[new[0]] = {'n': r.randint(20, 29), 'm': 2}
         if keys and r.random() < 0.4:
             k = r.choice(list(cur_keys)) if cur_keys else None
             if k:
